@@ -5,15 +5,17 @@ const lockPkg = "github.com/redis/rueidis/rueidislock"
 func init() {
 	checks["C34"] = &checkDef{
 		Level:       levelMC,
-		Explanation: "PARTIAL claim (single holder). The real rueidislock locker (NewLocker, TryWithContext, try/acquire/monitoring, script, onInvalidations, gates; lock.go) runs in the scheduler of the symbolic executor against the Redis model; the real acquire/extend/delete script texts are executed by the harness-side Lua interpreter and keys expire by the virtual clock that also drives the locker's timers. Pre-state: every one of the 3 keys is free or held by another client (decision). Events after a successful acquisition (decisions, bounded): time passes by one extend interval (timers fire, extensions run), another client deletes a key, another client overwrites a key, a spurious invalidation; each followed by the invalidation push the server would send; up to F script calls fail with a transport error (decision at every EVAL). Oracle: a successful attempt owns a majority and has a live context; a failed attempt ends with no live context and no key left behind; whenever a delete-script call is about to release a key the holder owns and that release leaves it with less than a majority, the holder's context is already done (this is the safety-relevant reading of 'done before any of its keys is released': a minority key given up after an extension error while the majority is still held does not open the lock to anybody); after every event, once the background goroutines have settled, a holder owning less than a majority has a done context; cancel() returns only after every key of the holder is released.",
+		Explanation: "PARTIAL claim. (1) Single holder with faults. The real rueidislock locker (NewLocker, TryWithContext, try/acquire/monitoring, script, onInvalidations, gates; lock.go) runs in the scheduler of the symbolic executor against the Redis model; the real acquire/extend/delete script texts are executed by the harness-side Lua interpreter and keys expire by the virtual clock that also drives the locker's timers. Pre-state: every one of the 3 keys is free or held by another client (decision). Events after a successful acquisition (decisions, bounded): time passes by one extend interval (timers fire, extensions run), another client deletes a key, another client overwrites a key, a spurious invalidation; each followed by the invalidation push the server would send; up to F script calls fail with a transport error (decision at every EVAL). Oracle: a successful attempt owns a majority and has a live context; a failed attempt ends with no live context and no key left behind; whenever a delete-script call is about to release a key the holder owns and that release leaves it with less than a majority, the holder's context is already done (this is the safety-relevant reading of 'done before any of its keys is released': a minority key given up after an extension error while the majority is still held does not open the lock to anybody); after every event, once the background goroutines have settled, a holder owning less than a majority has a done context; cancel() returns only after every key of the holder is released. (2) Hand-over between two lockers (two clients with their own connection) on one Redis model that also implements server-assisted tracking as the lockers configure it (a GET inside a script makes the connection a tracker of the key; SET/DEL/expiry push one invalidation to every tracker, delivered asynchronously and in order by one goroutine per connection): the first locker holds the lock, the second calls WithContext (it fails to reach a majority and parks on its gate, or is still trying — decision), the first releases; delay-bounded schedules of all goroutines (monitors, background acquisition, push delivery, waiter). Oracle: the waiter returns from WithContext with a live context (no missed wake-up: a schedule in which it stays parked is reported as a deadlock), and at that moment the first holder's context is done.",
 		Assumptions: []string{"the Lua interpreter and the Redis model (SET NX/PX/PXAT, GET, DEL, PEXPIREAT with expiry by the virtual clock) are harness code", "invalidation pushes are delivered by the harness right after the modification they announce", "KeyMajority 2 (3 keys), default validity 5 s / extend interval 2.5 s"},
 		Trusted:     []string{"harness/luasym.go.txt"},
-		Outside:     []string{"mutual exclusion between two live lockers and waiter wake-up across clients (WithContext waiters): they need server-assisted tracking semantics over two connections and a timed two-client schedule space; not encoded", "ForceWithContext, Close racing with holders", "events arriving while the holder is still acquiring its remaining keys in the background (TryWithContext returns at the majority): the locker counts a not-yet-attempted key as owned, so a key given up in that short window can leave it below a majority until the remaining attempt settles — observed while building this check, not claimed", "clock skew between client and server"},
-		Bounds:      map[string]any{"quick": "2 events, 1 transport fault, delay budget 0", "thorough": "3 events, 1 fault, delay budget 1"},
+		Outside:     []string{"mutual exclusion under lease expiry, clock skew and lost extensions with two or more contending lockers (only the fault-free hand-over of (2) is explored for two lockers)", "ForceWithContext, Close racing with holders", "events arriving while the holder is still acquiring its remaining keys in the background (TryWithContext returns at the majority): the locker counts a not-yet-attempted key as owned, so a key given up in that short window can leave it below a majority until the remaining attempt settles — observed while building this check, not claimed", "clock skew between client and server"},
+		Bounds:      map[string]any{"quick": "(1) 2 events, 1 transport fault, delay budget 0; (2) delay budget 1", "thorough": "(1) 3 events, 1 fault, delay budget 0; (2) delay budget 2"},
 		specs: func(tier string) []specRef {
-			r := hsd(lockPkg, "VerifC34_holder", P{"events": q(tier, int64(2), 3), "faults": 1}, q(tier, 0, 1), 3000000, 3000, "locked", "notlocked", "extended", "deleted", "takenover", "lost", "release", "released", "fault")
+			r := hsd(lockPkg, "VerifC34_holder", P{"events": q(tier, int64(2), 3), "faults": 1}, 0, 3000000, 3000, "locked", "notlocked", "extended", "deleted", "takenover", "lost", "release", "released", "fault")
 			r.spec.Overrides = luaOverrides
-			return []specRef{r}
+			h := hsd(lockPkg, "VerifC34_handover", nil, q(tier, 1, 2), 3000000, 3000, "parked", "handover")
+			h.spec.Overrides = luaOverrides
+			return []specRef{r, h}
 		},
 	}
 }
